@@ -21,7 +21,9 @@ def run(ctx: Ctx):
                 "Extension. non-trivial = distinct (input, query) whose first-pass task had >= 2 candidates with pairs")
     ctx.assumptions = ["ties between equally confident candidates: any maximal candidate is accepted",
                        "written Confidence has 2 decimals: it must be within half a unit of the exact maximum"]
-    res, lines, out = file_common.explore(ctx, 16 if quick else 240, salt=5)
+    res, lines, out = file_common.explore(ctx, 16 if quick else 240, salt=5,
+                                          kinds=["split", "noisy", "split", "dropped", "indel", "chimeric", "mirror", "partial",
+                                                 "junk", "tiny", "exact", "stretched"])
     seeds = []
     for rr, ln in zip(res, lines):
         if ln is None:
